@@ -82,7 +82,12 @@ func runC01(c *Ctx, r *Report) {
 		if !ok || !errVars[p.ObjOf(join, id)] {
 			return true
 		}
-		switch par := p.parent[id].(type) {
+		// the field of an aggregate (`failure.err`): the selector is the use
+		use := ast.Node(id)
+		if se, ok := p.parent[id].(*ast.SelectorExpr); ok && se.Sel == id {
+			use = se
+		}
+		switch par := p.parent[use].(type) {
 		case *ast.BinaryExpr, *ast.ValueSpec:
 		case *ast.CallExpr: // Wrap(err) in the return
 			if _, isRet := p.parent[par].(*ast.ReturnStmt); !isRet {
@@ -90,7 +95,7 @@ func runC01(c *Ctx, r *Report) {
 			}
 		case *ast.AssignStmt:
 			for _, rhs := range par.Rhs {
-				if rhs == ast.Expr(id) {
+				if ast.Node(rhs) == use {
 					bad = p.Pos(id.Pos())
 				}
 			}
@@ -295,7 +300,7 @@ func derivesFromParam(v ssa.Value, par *ssa.Parameter) bool {
 func mergedHeadsDeps(c *Ctx, r *Report, rule string, join *Fn) {
 	p := c.P
 	sf := p.SSAFunc(join)
-	headsF, nextF, entriesF := p.Field("", "IPFSLog", "heads"), p.Field("", "IPFSLog", "Next"), p.Field("", "IPFSLog", "Entries")
+	headsF, nextF := p.Field("", "IPFSLog", "heads"), p.Field("", "IPFSLog", "Next")
 	hs := fieldStores(sf, headsF, false)
 	if len(hs) == 0 {
 		r.Violate(rule, r.Key(rule, join, "heads-store", ""), join.Body.Pos(), "Join never stores the merged heads")
@@ -316,8 +321,8 @@ func mergedHeadsDeps(c *Ctx, r *Report, rule string, join *Fn) {
 					switch f, _ := fieldOf(y.X); f {
 					case headsF:
 						dep["destination heads"] = true
-					case nextF, entriesF:
-						dep["destination predecessor/entry index"] = true
+					case nextF:
+						dep["destination predecessor index"] = true
 					}
 				}
 			case *ssa.Call:
@@ -372,13 +377,13 @@ func mergedHeadsDeps(c *Ctx, r *Report, rule string, join *Fn) {
 				"the candidate set handed to the head scan is built from the source's entry index (read at "+fromEntries+") instead of its heads: the index can be newer than the heads that were read, so entries that were merged and are unreferenced end up outside the heads (or the log is left with no heads at all)")
 		}
 		r.Floor(rule, "head scans feeding the merged heads", nscan, 1)
-		for _, need := range []string{"destination heads", "source heads", "predecessor links of the new items", "destination predecessor/entry index"} {
+		for _, need := range []string{"destination heads", "source heads", "predecessor links of the new items", "destination predecessor index"} {
 			r.Check(dep[need], rule, r.Key(rule, join, "heads-depend-on", need), st.Pos(),
 				"the merged head set depends on the "+need, "the head set stored by the merge does not depend on the "+need+": "+map[string]string{
-					"destination heads":                   "the destination's own heads are lost",
-					"source heads":                        "the source's heads never become heads",
-					"predecessor links of the new items":  "an old head named by a merged entry stays a head (heads then depend on merge order)",
-					"destination predecessor/entry index": "a source head that the destination already extends becomes a spurious head (heads then depend on merge order)",
+					"destination heads":                  "the destination's own heads are lost",
+					"source heads":                       "the source's heads never become heads",
+					"predecessor links of the new items": "an old head named by a merged entry stays a head (heads then depend on merge order)",
+					"destination predecessor index":      "a source head that the destination already extends becomes a spurious head (heads then depend on merge order)",
 				}[need])
 		}
 	}
